@@ -135,33 +135,38 @@ def check_helper_summaries(run, rule="R1"):
     tu = "time_util."
     for name, sign in (("time_in_a_while", ast.Add), ("time_a_while_ago", ast.Sub)):
         fi = m.func(tu + name)
+        cfg = cfg_of(fi, m)
         params = [a.arg for a in fi.node.args.args]
-        rets = [n for n in walk_no_nested(fi.node) if isinstance(n, ast.Return)]
+        rets = cfg.by_kind("return")
         ok = params == TD_ORDER and len(rets) == 1
         if ok:
-            v = rets[0].value
+            from ..dataflow import inline_expr
+            v = inline_expr(cfg.rd, rets[0].ast.value, rets[0].id)
             ok = isinstance(v, ast.BinOp) and isinstance(v.op, sign) and \
                 isinstance(v.left, ast.Call) and \
                 call_name(v.left) == "utcnow" and \
-                isinstance(v.right, ast.Name)
-            td = [n for n in walk_no_nested(fi.node)
-                  if isinstance(n, ast.Assign) and isinstance(n.value, ast.Call)
-                  and call_name(n.value) == "timedelta"]
-            ok = ok and len(td) == 1 and \
-                [unparse(a) for a in td[0].value.args] == TD_ORDER and \
-                isinstance(td[0].targets[0], ast.Name) and \
-                td[0].targets[0].id == v.right.id
+                isinstance(v.right, ast.Call) and \
+                call_name(v.right) == "timedelta"
+            if ok:
+                # timedelta's own parameter order, by position or keyword
+                td = v.right
+                got = dict(zip(TD_ORDER, [unparse(a) for a in td.args]))
+                for k in td.keywords:
+                    ok = ok and k.arg in TD_ORDER and k.arg not in got
+                    got[k.arg] = unparse(k.value)
+                ok = ok and got == {p: p for p in TD_ORDER}
         run.check(ok, rule, fi.qual + "::summary",
                   "%s(...) == utcnow() %s timedelta(days, seconds, ...)" %
                   (name, "+" if sign is ast.Add else "-"),
                   "helper body no longer matches its summary", fi.loc())
     fi = m.func(tu + "shift_time")
-    rets = [n for n in walk_no_nested(fi.node) if isinstance(n, ast.Return)]
-    ok = len(rets) == 1 and unparse(rets[0].value) == \
-        "dtime + timedelta(seconds=shift)"
+    scfg = cfg_of(fi, m)
+    rets = scfg.by_kind("return")
+    ok = len(rets) == 1 and scfg.same(rets[0].ast.value, rets[0].id,
+                                      "dtime + timedelta(seconds=shift)")
     run.check(ok, rule, fi.qual + "::summary", "shift_time(t, s) == t + s seconds",
               "shift_time body no longer matches its summary: %s" %
-              (unparse(rets[0].value) if rets else "?"), fi.loc())
+              (unparse(rets[0].ast.value) if rets else "?"), fi.loc())
     fi = m.func(tu + "str_to_time")
     rets = [n for n in walk_no_nested(fi.node) if isinstance(n, ast.Return)]
     vals = sorted(unparse(r.value) for r in rets)
